@@ -383,6 +383,14 @@ pub fn main(args: &[String]) {
                 }
             }
         }
+        "brick-name" => {
+            // {"name":[bytes]}: BrickColor::from_name on the string; prints the number of the result
+            let spec: Value = serde_json::from_str(&args[1]).unwrap();
+            match String::from_utf8(bytes(&spec["name"])) {
+                Ok(name) => println!("{}", json!({"number": BrickColor::from_name(&name).map(|c| c as u16)})),
+                Err(_) => println!("{}", json!({"number": null, "note": "not UTF-8: no &str with these bytes exists"})),
+            }
+        }
         "tags" => {
             // {"mode":"encode","names":[[bytes]..]} | {"mode":"decode","blob":[..]}
             let spec: Value = serde_json::from_str(&args[1]).unwrap();
@@ -522,8 +530,22 @@ pub fn main(args: &[String]) {
                     .map(|_| out)
                     .map_err(|e| e.to_string())
             };
+            // same logical DOM, other table history: every property map is grown first (reserve) and filled in reverse order
+            let build_churned = || {
+                let mut dom = build_dom(true);
+                let all: Vec<Ref> = dom.descendants().map(|i| i.referent()).collect();
+                for r in all {
+                    let inst = dom.get_by_ref_mut(r).unwrap();
+                    let old: Vec<_> = inst.properties.drain().collect();
+                    inst.properties.reserve(112);
+                    for (k, v) in old.into_iter().rev() {
+                        inst.properties.insert(k, v);
+                    }
+                }
+                dom
+            };
             let a = write(&build_dom(false));
-            let b = write(&build_dom(true));
+            let b = write(&build_dom(true)).and_then(|x| write(&build_churned()).map(|y| if x == y { x } else { y }));
             let c = a.clone().and_then(|bytes| {
                 rbx_binary::Deserializer::new().reflection_database(&db).deserialize(&bytes[..]).map_err(|e| e.to_string()).and_then(|d| write(&d))
             });
